@@ -44,6 +44,13 @@ fn plan(prop: &str, tier: &str, scale: f64) -> Plan {
         w2_depth2_n: if thorough { 5 } else { 4 },
     };
     match prop {
+        "C02" => {
+            // its monitors are quadratic in the number of nodes at every boundary
+            p.w1_small /= 2;
+            if !thorough {
+                p.w2_n = 6;
+            }
+        }
         "C06" => {
             p.w1_small /= 2;
             p.w1_large /= 2;
@@ -267,6 +274,11 @@ fn main() {
         let ctx = Ctx { prop, seed, profile: profile.clone(), always_heavy: true, beacon: beacon.clone() };
         spawn_watchdog(vec![beacon], stall_secs.max(60), replay_dir.clone(), prop, profile.clone(), seed);
         let mut cov = Cov::default();
+        let cap0: usize = meta
+            .get("workload")
+            .and_then(|w| w.rsplit_once("-cap"))
+            .and_then(|(_, c)| c.parse().ok())
+            .unwrap_or(0);
         let v = if meta.get("workload").map_or(false, |w| w.starts_with("w3-")) {
             // churn histories are regenerated from their parameters
             let w = meta.get("workload").unwrap();
@@ -279,18 +291,18 @@ fn main() {
             run_w3(&ctx, slots, cycles, sub, &mut cov)
         } else {
             match prop {
-                "C08" => replay_ops::<Tok>(&ctx, &ops, &mut cov, true, &mut NoHook),
-                "C14" => replay_ops::<Txt>(&ctx, &ops, &mut cov, false, &mut PrettyHook { shapes: HashSet::new() }),
+                "C08" => replay_ops::<Tok>(&ctx, &ops, cap0, &mut cov, true, &mut NoHook),
+                "C14" => replay_ops::<Txt>(&ctx, &ops, cap0, &mut cov, false, &mut PrettyHook { shapes: HashSet::new() }),
                 #[cfg(feature = "deser")]
                 "C16" => {
-                    let a = replay_ops::<Plain>(&ctx, &ops, &mut cov, false, &mut ixv::special::SerdeHook { shadows: Vec::new() });
+                    let a = replay_ops::<Plain>(&ctx, &ops, cap0, &mut cov, false, &mut ixv::special::SerdeHook { shadows: Vec::new() });
                     if a.is_some() {
                         a
                     } else {
-                        replay_ops::<u64>(&ctx, &ops, &mut cov, false, &mut ixv::special::SerdeHook { shadows: Vec::new() })
+                        replay_ops::<u64>(&ctx, &ops, cap0, &mut cov, false, &mut ixv::special::SerdeHook { shadows: Vec::new() })
                     }
                 }
-                _ => replay_ops::<Plain>(&ctx, &ops, &mut cov, false, &mut NoHook),
+                _ => replay_ops::<Plain>(&ctx, &ops, cap0, &mut cov, false, &mut NoHook),
             }
         };
         match v {
@@ -490,6 +502,14 @@ fn main() {
     let mut cov = Cov::default();
     for h in handles {
         cov.merge(h.join().expect("worker thread died"));
+    }
+    #[cfg(feature = "macros")]
+    if prop == "C08" {
+        match ixv::exec::guarded(ixv::special::c08_macro_battery) {
+            Ok(Ok(n)) => cov.add("macro_payload_drop_checks", n),
+            Ok(Err((sig, detail))) => shared.violations.lock().unwrap().push(Violation { prop: "C08".into(), sig: format!("macro/{}", sig), detail, workload: "macro-battery".into(), step: 0, ops: Vec::new() }),
+            Err(p) => shared.violations.lock().unwrap().push(Violation { prop: "C08".into(), sig: "macro/panic".into(), detail: p, workload: "macro-battery".into(), step: 0, ops: Vec::new() }),
+        }
     }
     #[cfg(feature = "macros")]
     if prop == "C17" {
